@@ -298,7 +298,7 @@ let run_scenario (sc : scn) (ops : string list list) : unit =
       | [ "dc"; i; b ] -> ignore (exec d w (SOp (OSetCmdDisable (nat_of_int (ios i), b = "1"))))
       | [ "dg"; i; b ] -> ignore (exec d w (SOp (OSetGroupDisable (nat_of_int (ios i), b = "1"))))
       | [ "p"; slot; hx ] -> ignore (exec d w (SPoke (nat_of_int (ios slot), bytes_of_hex hx)))
-      | [ "N" ] -> ignore (exec d w SReinit)
+      | [ "N" ] | [ "NI" ] -> ignore (exec d w SReinit)
       | [ "sc"; hx ] ->
         (match search_command_by_name d (bytes_of_hex hx) with
          | Some i -> pr "= sc %d\n" (int_of_nat i) | None -> pr "= sc -1\n")
